@@ -9,6 +9,10 @@ ids = [json.loads(l)['id'] for l in (V / 'properties.jsonl').read_text().splitli
 TECH = 'contract-based deductive verification: own VC generator (pyvc) over the real .py/.pyx source, sidecar contracts, z3/cvc5'
 
 CLAIMED = {
+	'C04': dict(
+		text='genomes_by_id (strict and lenient), genomes_by_id_subset (loop invariant: parallel lists, every matched genome paired with the position of the signature carrying its identifier, positions strictly increasing, no matching signature skipped) and ReferenceDatabase.__init__ (TypeError iff id_attr absent; normal return only with len(genomes) = number of genomes in the set) are verified over opaque identifier values and a ghost genome set, for every order of signature IDs and any number of unrelated signatures. locate_files has a bounded stand-in only (real function on generated directories), and the composition with the distance matrix is exercised by the bounded run on the real SQLite/HDF5 database.',
+		note='Trusted: contracts of the three SQLAlchemy helpers and Query.count(); pigeonhole step; locate_files bounded only (labelled, not counted as proved).',
+		design='3/C04'),
 	'C13': dict(
 		text='calc_file_signatures is verified on all executor branches (sequential, thread pool, process pool, caller-supplied executor, invalid mode) against: one signature per file, in file order, each THE single-file result, and failure of the whole call iff some file fails. The completion loop is proved for an ARBITRARY permutation of the futures (as_completed specified as: every future once, any order), i.e. for every schedule; submission-loop invariant makes the future->index map injective. Loop/exit reachability canaries guard against vacuity. Bounded companion: the real function driven by an executor stub through every completion order for n <= 5.',
 		note='Trusted: the concurrent.futures contract (fresh futures, as_completed permutation, result() value or exception), pickling in process mode, progress helpers, calc_file_signature as a function of its arguments.',
